@@ -269,8 +269,15 @@ fn run_case_inner(case: DropCase, helper: std::path::PathBuf, markers: std::path
                 Handle::PipeStreamStdoutMemberErrPipe => child_cmd(&helper, case.behaviour, 2, 0).stderr(Redirection::Pipe),
                 _ => child_cmd(&helper, case.behaviour, 1, 0),
             };
+            // which member holds the stderr pipe of its own: any position, inner ones included
+            let err_member = if case.handle == Handle::PipeStreamStdoutMemberErrPipe { case.exit_code as usize % n } else { 0 };
+            let first = if case.handle == Handle::PipeStreamStdoutMemberErrPipe && err_member != 0 { filter_cmd(&helper, 0, case.stage_delay_ms, &markers) } else { first };
             cmds.push(first);
             for i in 1..n {
+                if case.handle == Handle::PipeStreamStdoutMemberErrPipe && i == err_member {
+                    cmds.push(child_cmd(&helper, case.behaviour, 2, 0).stderr(Redirection::Pipe));
+                    continue;
+                }
                 // later stages outlive earlier ones when they have a delay
                 cmds.push(filter_cmd(&helper, i, if i + 1 == n { 0 } else { case.stage_delay_ms }, &markers));
             }
